@@ -523,11 +523,17 @@ func (w *OggWriter) Close() error {
 	}()
 
 	if w.fd == nil {
-		if closer, ok := w.stream.(io.Closer); ok {
-			return closer.Close()
+		if w.stream == nil {
+			return nil
 		}
 
-		return nil
+		// The output cannot be rewritten, so finish the logical stream with a nil EOS page.
+		closeErr := writeNilEndOfStreamPage(w.stream, w.checksumTable, w.track)
+		if closer, ok := w.stream.(io.Closer); ok {
+			closeErr = errors.Join(closeErr, closer.Close())
+		}
+
+		return closeErr
 	}
 
 	closeErr := markTrackEndOfStream(w.fd, w.checksumTable, w.track)
